@@ -115,6 +115,48 @@ func s2() {
 	vs.Event("close:" + errStr(in.Close()))
 }
 
+// S10: a Listen call while a listener is active is refused (or served - not
+// judged) and leaves the port fully usable: the first listener keeps
+// receiving, can be stopped, and listening again afterwards works.
+func s10() {
+	sc := script(lines, 0)
+	in := newIn()
+	vs.Event("open:" + errStr(in.Open()))
+	got1 := vs.NewChan[string](8)
+	stop1, err := in.Listen(listener(1, got1), drivers.ListenConfig{})
+	vs.Event("listen1:" + errStr(err))
+	if err != nil {
+		return
+	}
+	stopX, errX := in.Listen(listener(9, nil), drivers.ListenConfig{})
+	if errX == nil {
+		vs.Event("listen-again:accepted")
+		if stopX != nil {
+			stopX()
+		}
+		return // how two simultaneous listeners share the lines is not judged
+	}
+	vs.Event("listen-again:refused")
+	vs.Event(fmt.Sprintf("isopen:%v", in.IsOpen()))
+	sc.Trigger.Send(0)
+	for got1.Recv() != wantLine[0] {
+	}
+	stop1()
+	vs.Event("stop1-returned")
+	got2 := vs.NewChan[string](8)
+	stop2, err := in.Listen(listener(2, got2), drivers.ListenConfig{})
+	vs.Event("listen2:" + errStr(err))
+	if err != nil {
+		return
+	}
+	sc.Trigger.Send(1)
+	for got2.Recv() != wantLine[1] {
+	}
+	stop2()
+	vs.Event("stop2-returned")
+	vs.Event("close:" + errStr(in.Close()))
+}
+
 // S3: the helper cannot be started twice, then can.
 func s3() {
 	script(lines, 2)
@@ -352,6 +394,24 @@ func scenarios() []scenario {
 			}
 			if indexOf(e, "deliver:2:"+wantLine[1]) < 0 {
 				return "delivery:lost", "line written while listener 2 was active not delivered"
+			}
+			return "", ""
+		}},
+		{"S10-listen-while-listening", s10, func(e *vs.Exec) (string, string) {
+			if indexOf(e, "listen-again:accepted") >= 0 {
+				return "", ""
+			}
+			if s, w := deliveryRules(e); s != "" {
+				return s, w
+			}
+			if s, w := expectSeq(e, []string{"open:", "listen1:", "listen-again:", "isopen:", "listen2:", "close:"}, []string{"open:nil", "listen1:nil", "listen-again:refused", "isopen:true", "listen2:nil", "close:nil"}); s != "" {
+				return s, w
+			}
+			if len(eventsOf(e, "deliver:9:")) > 0 {
+				return "delivery:to-refused-listener", "the listener whose Listen call was refused received a message"
+			}
+			if indexOf(e, "deliver:1:"+wantLine[0]) < 0 || indexOf(e, "deliver:2:"+wantLine[1]) < 0 {
+				return "delivery:lost", "a line written while a listener was active was not delivered to it"
 			}
 			return "", ""
 		}},
